@@ -916,4 +916,38 @@ theorem Sys.caught_up_exact (ops : List SysOp) (hall : SysAllowed ops) {r a : St
     · rw [← Sys.runRev_net]; exact hga
   exact C02_caught_up_exact (allowedRev_netHist ops hall) hobs hc k
 
+/-! ## helpers for concrete runs (generic versions of `SysEx.summary_final` / `SysEx.node_mem`) -/
+
+namespace SysEx
+
+/-- a quiet schedule changes no registry, no local row and nobody's left-flag -/
+theorem summary_quiet (sched ops : List SysOp) (hall : SysAllowed (sched ++ ops))
+    (hq : ∀ op ∈ sched, op.quiet.isSome = true) (k : String) :
+    summary (Sys.runRev (sched ++ ops)) k = summary (Sys.runRev ops) k := by
+  cases h0 : (Sys.runRev ops).node k with
+  | some x0 =>
+    obtain ⟨x1, h1, hl, ht, ho⟩ := Sys.quiet_keeps sched ops hall hq k x0 h0
+    simp [summary, h0, h1, hl, ht, ho]
+  | none =>
+    cases h1 : (Sys.runRev (sched ++ ops)).node k with
+    | none => simp [summary, h0, h1]
+    | some x1 =>
+      exfalso
+      obtain ⟨sd, g, hsd, _, _⟩ := Sys.node_eq h1
+      have hdom := Sys.side_dom_quiet sched ops hq k
+      rw [hsd] at hdom
+      cases hs0 : (Sys.runRev ops).side.find k with
+      | none => rw [hs0] at hdom; cases hdom
+      | some sd0 =>
+        obtain ⟨g0, hg0⟩ := (sysInv_runRev ops (sysAllowed_append sched ops hall)).net_of_side hs0
+        simp [Sys.node, hs0, hg0] at h0
+
+theorem node_mem_keys {s : Sys} {k : String} (h : (s.node k).isSome = true) : k ∈ s.side.keys := by
+  unfold Sys.node at h
+  cases hf : s.side.find k with
+  | none => simp [hf] at h
+  | some sd => exact C14.mem_keys_of_find hf
+
+end SysEx
+
 end Piko
